@@ -2,7 +2,7 @@
    Model: model/Meta.v (every schedule of request micro-steps, Notify goroutines, persist
    steps, SIGKILLs and restarts).  Proofs: proofs/MetaProofs.v. *)
 From Coq Require Import List NArith Bool Arith.
-From NSQV Require Import gen.MetaShape model.Judge model.Names model.MetaSrc model.Meta proofs.MetaProofs proofs.MetaPause.
+From NSQV Require Import gen.MetaShape model.Judge model.Names model.MetaSrc model.Meta proofs.MetaProofs proofs.MetaPause proofs.MetaSeq.
 Import ListNotations.
 Open Scope nat_scope.
 
@@ -31,6 +31,42 @@ Theorem C06_atomic : forall evs,
    exists c, dat (fs s) = Some c /\ complete c = true /\ f_synced c = true /\ from_hist (hist s) (f_doc c)).
 Proof. exact atomic_all. Qed.
 Print Assumptions C06_atomic.
+
+(* The stronger reading -- the whole document is the persisted form of ONE live state the
+   daemon passed through -- is FALSE of the code (known finding K8, reproduced on the real
+   daemon by metadrive's kind=mix scenario): GetMetadata reads the topics one after the
+   other, each under its own lock, while channel create/delete and pause flips that already
+   passed their lookup do not take the NSQD lock.  The witness schedule (MetaSeq.v
+   [k8_schedule]): create a, b, b/y, a/x; two concurrent deleters; a Notify persist reads a,
+   then a/x and b/y leave their maps, then it reads b: nsqd.dat = {a/x, b}. *)
+Definition C06_atomic_full : Prop :=
+  forall evs, let s := run init evs in
+  forall c, dat (fs s) = Some c -> exists L, In L (hist s) /\ f_doc c = snapshot L.
+Theorem C06_atomic_full_refuted : ~ C06_atomic_full.
+Proof. exact atomic_full_refuted. Qed.
+Print Assumptions C06_atomic_full_refuted.
+
+(* It holds outside the K8 region: in every schedule in which no GetMetadata has two mutation
+   steps (channel insert/drop/remove, pause flip) between its first and its last topic read,
+   nsqd.dat is the persisted form of one live state the daemon passed through ... *)
+Theorem C06_atomic_outside : forall evs, Single evs ->
+  let s := run init evs in
+  forall c, dat (fs s) = Some c -> exists L, In L (hist s) /\ f_doc c = snapshot L.
+Proof. exact atomic_outside. Qed.
+Print Assumptions C06_atomic_outside.
+
+(* ... and a sequential client (at most one request in progress at any time; any number of
+   pending Notify goroutines, any interleaving, kills, restarts) never leaves that region:
+   its next request blocks on NSQD.RLock while a persist holds the lock, and one request
+   makes at most one lock-free change. *)
+Theorem C06_sequential_is_outside : forall evs, Sequential evs -> Single evs.
+Proof. exact sequential_single. Qed.
+Print Assumptions C06_sequential_is_outside.
+Theorem C06_atomic_sequential : forall evs, Sequential evs ->
+  let s := run init evs in
+  forall c, dat (fs s) = Some c -> exists L, In L (hist s) /\ f_doc c = snapshot L.
+Proof. exact atomic_sequential. Qed.
+Print Assumptions C06_atomic_sequential.
 
 (* Whenever the daemon is idle (no request in progress, no Notify goroutine pending, no
    persist running), nsqd.dat is exactly the persisted form of the live state: every
@@ -115,3 +151,10 @@ Example C06_witness_pause_acked :
   forallb (fun e => match e with EStart j o => negb (N.eqb j 2) && negb (touches_op tname o) | _ => true end) evs = true /\
   option_map f_doc (dat (fs s)) = Some [mkDT tname true []] /\ idle s.
 Proof. vm_compute. intuition (try discriminate; auto). Qed.
+
+(* the K8 schedule really produces the mixed document, and it is not Single / not Sequential;
+   the F6 schedule is sequential *)
+Example C06_witness_K8 : k8_check = true.
+Proof. exact k8_check_true. Qed.
+Example C06_witness_sequential : Sequential f6_schedule.
+Proof. vm_compute. repeat split; auto. Qed.
